@@ -366,6 +366,7 @@ Proof. vm_compute. reflexivity. Qed.
 
 (* who writes an attribute that names key, type, digest, certificate, client or file: nobody but these; in particular no
    signer module touches them (their attributes are listed in attr_writes under other keys), and every key is a literal *)
+Definition q_mark : bytes := zs "?".
 Definition identity_writers : list (bytes * bytes * bytes) :=
   filter (fun w => existsb (bytes_eqb (snd w)) identity_keys) attr_writes.
 Definition reviewed_identity_writers : list (String.string * String.string * String.string) :=
@@ -381,7 +382,7 @@ Definition reviewed_identity_writers : list (String.string * String.string * Str
    ("lib/audit/audit.go", "Info.SetX509Cert", "sig.x509.fingerprint");
    ("server/view_sign.go", "Server.serveSign", "client.ip"); ("server/view_sign.go", "Server.serveSign", "client.filename")].
 Lemma identity_writers_reviewed :
-  identity_writers = map zs3 reviewed_identity_writers /\ forallb (fun w => negb (bytes_eqb (snd w) (zs "?"))) attr_writes = true.
+  identity_writers = map zs3 reviewed_identity_writers /\ forallb (fun w => negb (bytes_eqb (snd w) q_mark)) attr_writes = true.
 Proof. split; vm_compute; reflexivity. Qed.
 
 (* every statement and expression of the translated functions was understood *)
@@ -424,15 +425,16 @@ Qed.
 Definition cert_a : cert := mkCert (zs "DER of certificate A") (zs "subject A") (zs "issuer A") (zs "the public key") (zs "tbs A").
 Definition cert_b : cert := mkCert (zs "DER of certificate B") (zs "subject B") (zs "issuer B") (zs "the public key") (zs "tbs B").
 Definition ent_a : entity := mkEntity (zs "fpr A") (zs "kid A") (zs "ids A").
+Definition blob_a : bytes := zs "pkcs7 blob".
 Definition req_with (keyname section : String.string) (c : cert) : request :=
   mkRequest (zs keyname) (zs "cat") 5 (zs "hyperv.cat") (zs "198.51.100.23:5151") (UCert (zs "alice") [])
         false true (zs section) (Some c) (Some ent_a) false [] true false false false false false true [] [] false
-        1759212000 (zs "signer01") true true (KPkcs7 None) (zs "pkcs7 blob") 13580 true true false false.
+        1759212000 (zs "signer01") true true (KPkcs7 None) blob_a 13580 true true false false.
 Definition req_a := req_with "release" "release" cert_a.
 Definition req_b := req_with "rel-alias" "release-ev" cert_b.
 
 Example server_request_answered :
-  responded (handle [] req_a) = [VStr (zs "pkcs7 blob")] /\ init_succeeds req_a = true /\
+  responded (handle [] req_a) = [VStr blob_a] /\ init_succeeds req_a = true /\
   map (fun p => identity_of (fst p)) (file_records (handle [] req_a)) = [spec_server req_a].
 Proof. vm_compute. repeat split. Qed.
 
@@ -470,7 +472,7 @@ Definition x509_named (o : outcome) : list (list (bytes * value)) :=
 Example memo_names_the_first_certificate :
   let os := handle_all memo_funcs [] [req_a; req_b; req_a] in
   map x509_named os = [[spec_x509 cert_a]; [spec_x509 cert_a]; [spec_x509 cert_a]]         (* the record of B's signature names A *)
-  /\ map responded os = [[VStr (zs "pkcs7 blob")]; [VStr (zs "pkcs7 blob")]; [VStr (zs "pkcs7 blob")]]
+  /\ map responded os = [[VStr blob_a]; [VStr blob_a]; [VStr blob_a]]
   /\ map x509_named (handle_all rec_funcs [] [req_a; req_b; req_a]) = [[spec_x509 cert_a]; [spec_x509 cert_b]; [spec_x509 cert_a]]
   /\ (forall o, In o os -> o_glob o <> []).
 Proof.
